@@ -68,6 +68,12 @@ CLAIMS = {
                   'and that every placeholder is a parameter of its test, emits every row, and validates code, type, parameter keys, value, non-empty placeholder-free message and the SOURCE of the message (signed sentinels) of every real issue.',
              technique='TLC-checked catalogue over imported language maps + exhaustive replay of every row on the real library, validated by TLC', ref='5 C11, 3.8',
              note='Wording is not judged. Bool True()/False() may report either their dedicated code or eq.'),
+ 'C17': dict(engine='ZogChain', text='TLC explores every chain of <= 3 builder calls the Go type system admits and checks that a code-shaped builder machine (isNot flag consumed by the next built-in test, options applied to the '
+                  'test copy after the code flip, overwriting setters) equals the declarative reading NodeOf(chain) after every call. Every complete chain (string and int schemas) is emitted with its declarative reading as the case schema, executed '
+                  'on the real builder API, probed with absent/present inputs in Parse and Validate, and validated by Trace_Exec (behaviour, code and the message of exactly the call an option was passed to). A second family places one schema object '
+                  'at several positions of a larger schema and validates it against independent copies.',
+             technique='TLC model checking of ZogChain + TLC-emitted chains executed on the real builder API and validated by TLC (Trace_Exec)', ref='5 C17, 3.6',
+             note='Chains cover String (Not, Len, Contains, Min, TestFunc) and Int (GTE, LTE, TestFunc) with Required/Optional/Default/Catch; WithCoercer locality is covered by rows of Tab_C03 (C03 check).'),
 }
 NA_REASON = 'check not built yet (work in progress; DESIGN.md section 11 gives the build order)'
 checks = []
@@ -82,7 +88,8 @@ for p in props:
 m = dict(version=1, setup_cmd='bin/setup',
          hooks=dict(guard='verif', enable='go build -tags verif (harness module replaces github.com/Oudwins/zog with /repo)',
                     baseline_off_cmd='cd /repo && go test -vet=off -count=1 ./...', source_commits=hook_commits, add_only=True),
-         engines=[dict(name='Tables', path='/verif/spec/Tab_C18.tla', serves_properties=['C18', 'C03', 'C04', 'C20', 'C11'], kind_free_text='finite decision tables in TLA+ (Tab_C03, Tab_C04, Tab_C18): TLC checks table invariants, emits rows, validates observed outcomes'),
+         engines=[dict(name='ZogChain', path='/verif/spec/ZogChain.tla', serves_properties=['C17'], kind_free_text='TLA+ builder-chain machine vs declarative reading + chains executed on the real builder API'),
+                  dict(name='Tables', path='/verif/spec/Tab_C18.tla', serves_properties=['C18', 'C03', 'C04', 'C20', 'C11'], kind_free_text='finite decision tables in TLA+ (Tab_C03, Tab_C04, Tab_C18): TLC checks table invariants, emits rows, validates observed outcomes'),
                   dict(name='ZogBuild', path='/verif/spec/ZogBuild.tla', serves_properties=['C16'], kind_free_text='TLA+ model of builder histories over Go slices with backing-array identity + trace validation'),
                   dict(name='ZogPools', path='/verif/spec/ZogPools.tla', serves_properties=['C07', 'C08'], kind_free_text='TLA+ model of pooled objects, call histories and goroutines (TLC) + history replay + TLC trace validation of pool events'),
                   dict(name='ZogExec', path='/verif/spec/ZogExec.tla', serves_properties=[p for p in props if p in CLAIMS and CLAIMS[p].get('engine', 'ZogExec') == 'ZogExec'],
